@@ -385,6 +385,27 @@ def gboost_target():
     return Target('gboost_sample', [f], GH, replace=['sample_without_replacement', 'sample_with_replacement', 'sample_with_replacement_weighted'])
 
 
+# ------------------------------------------------------------------------------------------------- CBMC: random splitter (cross-check)
+def rsplit_target():
+    import hooks
+    types = [(r'tensor_t<nano::tensor_vector_storage_t, long, 1>|^nano::indices_t$', 'struct nv_ixa'),
+             (r'^Eigen::Map<\s*Eigen::Matrix<long, -1, 1, 0.*>, 0.*>$|Eigen::VectorBlock<|Eigen::Block<', 'struct nv_ixv'),
+             (r'^nano::rng_t$|linear_congruential_engine', 'struct nv_rng'), (r'splits_t$|^std::vector<std::pair<nano::tensor_t', 'struct nv_splits'),
+             (r'^nano::seed_t$|^std::optional<unsigned long>$', 'uint64_t')]
+    calls = [(r'^make_rng\|', 'nv_make_rng({0})'), (r'^ctor\|std::optional<unsigned long>\|', '{0}'),
+             (r'^ctor\|nano::tensor_t<nano::tensor_vector_storage_t, long, 1>\|void \((const )?(long|nano::tensor_size_t)', 'nv_ixa_make({0})'),
+             (r'^idiv\|long \(long, int\)', 'idiv_l_i({0}, {1})'), (r'^begin\|', 'nv_begin({&0})'), (r'^end\|', 'nv_end({&0})'),
+             (r'^shuffle\|', 'nv_shuffle({0}, {1}, {&2})'), (r'^sort\|void \(long \*, long \*\)', 'nv_sort({0}, {1})'),
+             (r'^operator=\|Eigen::', 'nv_assign({0}, {1})'), (r'^move\|', '{0}')]
+    members = [(r'^size\|', '{*self}.n'), (r'^vector\|nano::tensor_t<nano::tensor_vector_storage_t, long, 1>', 'nv_vector({self})'),
+               (r'^segment\|', 'nv_segment({*self}, {0}, {1})'), (r'^reserve\|std::vector', '@drop'),
+               (r'^emplace_back\|std::vector<std::pair', 'nv_emplace_back({self}, {0}, {1})')]
+    f = Fn('random_split', RANDOM[0], 'split', flt=RANDOM[1], types=types, calls=calls, members=members,
+           hooks=[hooks.param_hook(), make_rng_hook], uf_float=False)
+    return Target('random_split_cbmc', [f], 'specs/C12/rsplit.h', replace=['idiv_l_i'], cbmc_flags=['--sat-solver', 'cadical'],
+                  note='cross-check of back end B on an independent abstract C model; cadical: minisat2 is erratic on the train_per*n product')
+
+
 # ------------------------------------------------------------------------------------------------- lemmas
 def lemmas():
     """facts about the spec functions (no code involved)"""
@@ -419,7 +440,7 @@ def build(tier):
         fns.append(r[1])
     vcs += lemmas()
     return {
-        'targets': lambda_targets() + [gboost_ctor_target(), gboost_target()], 'vcs': vcs, 'functions': fns,
+        'targets': lambda_targets() + [gboost_ctor_target(), gboost_target(), rsplit_target()], 'vcs': vcs, 'functions': fns,
         'decided': [
             'k-fold and random splitter, for every n in [0, 2^56], folds in [2,100], seed, percentage in [10,90], every fold: |train|+|valid| == n; every input element is copied exactly once into exactly one of train/valid and every slot of both is filled exactly once (=> disjoint, union == input for distinct inputs); both parts are sorted by std::sort over their whole range; one pair per fold',
             'k-fold: fold f validates exactly positions [f*chunk, f+1<folds ? (f+1)*chunk : n) of the shuffled input, these ranges tile [0,n) (each element validated by exactly one fold), sizes lie in [chunk, chunk+folds) (differ by less than folds)',
@@ -428,6 +449,7 @@ def build(tier):
             'every Eigen segment(begin,len) / dst=src / tensor slice / element access / indices_t(size) precondition that NDEBUG compiles out holds at every call site; no signed overflow in any index computation',
             'sample_without_replacement (0 <= count <= n): count distinct sorted members of the input; sample_with_replacement, uniform and weighted (n >= 1, count >= 0): count sorted members; weighted: the drawn index is used unchanged over the whole weight vector, so no zero-weight index is returned given the STL guarantee',
             'generator lambdas of sample_with_replacement (CBMC, real memory): the element access is in bounds and the result is an element of the input for every rng state',
+            'random splitter again in CBMC/DFCC (cross-check on an independent abstract C model, specs/C12/rsplit.h, n <= 10^6): segment/copy discipline, exactly-once copy and fill, sortedness, per-fold reshuffle with the seeded rng, one pair per fold, loop termination -- everything of the back end B proof except the non-linear rounding clause',
             'gboost::sampler_t (CBMC): the constructor establishes the weight-vector invariant and seeds the rng from its seed argument; sample(): count = trunc(ratio*n) lies in [0,n], every mode calls the matching sampler inside its precondition and returns its result (subsample: distinct sorted members; bootstrap: sorted members; weighted: sorted members of positive weight with every weight written, in order, and weight(i) = loss / gradient norm of sample i; off: the whole list), all tensor index asserts hold, both loops terminate'],
         'not_decided': [
             'that std::shuffle/std::sort/std::generate/std::discrete_distribution behave as specified (assumed contracts)',
@@ -444,6 +466,7 @@ def build(tier):
             'index vectors have at most 2^56 elements',
             'preconditions taken from the library\'s own (NDEBUG-disabled) asserts: count <= samples.size() (without replacement), samples.size() == weights.size(), and min <= max in make_udist, i.e. a non-empty input for sample_with_replacement; a positive total weight for std::discrete_distribution',
             'gboost::sampler_t::sample calls the three samplers BY CONTRACT: the C contracts in specs/C12/gsampler.h restate by hand what back end B proves for them (same requires / ensures, not generated from one source)',
+            'the CBMC cross-check of the random splitter uses idiv by a hand-restated contract (same clauses as idiv_requires/idiv_ensures proved in back end B, for denominator 100)',
             'IEEE multiplication is monotone: 0 < a <= 1, b >= 0 => 0 <= fl(a*b) <= b (one axiom on the otherwise uninterpreted product; CBMC needs 93 s to bit-blast it)',
             'every training sample stored in sampler_t::m_samples is a valid sample of the dataset (0 <= s < errors_losses.cols == gradients.dim0); gboost::subsample_ratio in (0,1]; a non-empty training set',
             'existence of a positive weight / non-negative weights (asserts of the weighted sampler) are not re-established at the call site in sampler_t::sample (they depend on the loss values)',
